@@ -122,6 +122,19 @@ def o_highdim(rng):
     f = o_loglik(dict(w=w, m=m, v=v, X=X, a=a, b=b))
     if f:
         return f
+    # the same scores and statistics from a Dask array of the rescaled samples
+    import dask.array as da
+    gt = gen.mk_gmm(w, a * m + b, a * a * v, thr=0.0)
+    g0 = gen.mk_gmm(w, m, v, thr=0.0)
+    Xd = da.from_array(a * X + b, chunks=(11, D))
+    l1 = core.impl(lambda: np.asarray(gt.log_likelihood(Xd), float))
+    l0 = np.asarray(g0.log_likelihood(X), float)
+    if isinstance(l1, core.ImplError) or not core.close(l1, l0 - np.sum(np.log(np.abs(a))), 1e-8, 1e-6):
+        return {"sig": "loglik-shift", "what": f"Dask array, {D} features in units of {abs(a[0]):.3g}: log-likelihoods {l1!r} vs original {l0.tolist()} - {np.sum(np.log(np.abs(a)))}"}
+    n1 = core.impl(lambda: np.asarray(gt.acc_stats(Xd).n, float))
+    n0 = np.asarray(g0.acc_stats(X).n, float)
+    if isinstance(n1, core.ImplError) or not core.close(n1, n0, 1e-6, 1e-9):
+        return {"sig": "responsibilities-not-invariant", "what": f"Dask array: occupancies {n1!r} vs {n0.tolist()}"}
     res = []
     for (mm, vv, x, fl) in ((m, v, X, 1e-12), (a * m + b, a * a * v, a * X + b, 1e-12 * a * a)):
         g = gen.mk_gmm(w, mm, vv, thr=np.broadcast_to(fl, np.shape(vv)).copy(), max_fitting_steps=1, convergence_threshold=None, update_variances=True, update_weights=True)
